@@ -1207,17 +1207,20 @@ func (p *pinner) Update(ctx context.Context, from, to cid.Cid, unpin bool) error
 		return err
 	}
 
+	// A recursive pin supersedes a direct pin of the same CID (as in Pin).
+	// Look it up before anything is written, so that a failing lookup
+	// leaves no partial update behind.
+	toDirect, err := p.cidDIndex.HasAny(ctx, to.KeyString())
+	if err != nil {
+		return err
+	}
+
 	_, err = p.addPin(ctx, to, ipfspinner.Recursive, pin.Name)
 	if err != nil {
 		return err
 	}
 
-	// A recursive pin supersedes a direct pin of the same CID (as in Pin).
 	// Removed after the new pin is written, so `to` is never unpinned.
-	toDirect, err := p.cidDIndex.HasAny(ctx, to.KeyString())
-	if err != nil {
-		return err
-	}
 	if toDirect {
 		if _, err = p.removePinsForCid(ctx, to, ipfspinner.Direct); err != nil {
 			return err
